@@ -50,6 +50,12 @@ def adversarial_payloads(rng):
     out.append("<message>&#0;</message>")
     out.append("<message>&unknown;</message>")
     out.append("<handshake xmlns='jabber:component:accept'>zz</handshake>")
+    # server-controlled hash keys (ids, attribute names) with bytes >= 0x80 in every position class
+    for key in ("id-\u65e5", "\u20ac", "\u2713x", "\u65e5\u672c\u8a9e", "\u00e9", "a\u0416", "\U0001F600"):
+        key = key.encode("utf-8").decode("latin1")      # (payload strings carry bytes as latin-1 characters)
+        out.append("<iq id='%s' type='result'/>" % key)
+        out.append("<message %s='v'><body>x</body></message>" % ("a" + key))
+        out.append("<presence id='%s'><x xmlns='urn:x' %s='1'/></presence>" % (key, "k" + key))
     return out
 
 
